@@ -177,6 +177,20 @@ public:
   }
 
   /**
+   * @return the key under which a value for given attributes is (or will be) stored:
+   * the attributes themselves, or the overflow attributes if they are not present
+   * and the cardinality limit is reached.
+   */
+  const MetricAttributes &GetEffectiveAttributes(const MetricAttributes &attributes) const
+  {
+    if (hash_map_.find(attributes) == hash_map_.end() && IsOverflowAttributes())
+    {
+      return kOverflowAttributes;
+    }
+    return attributes;
+  }
+
+  /**
    * Iterate the hash to yield key and value stored in hash.
    */
   bool GetAllEnteries(
@@ -196,6 +210,11 @@ public:
    * Return the size of hash.
    */
   size_t Size() { return hash_map_.size(); }
+
+  /**
+   * Return the cardinality limit of hash.
+   */
+  size_t Limit() const { return attributes_limit_; }
 
 #ifdef UNIT_TESTING
   size_t BucketCount() { return hash_map_.bucket_count(); }
